@@ -166,9 +166,27 @@ def sort_mixed(l):
     return sorted(l, key=lambda x: (isinstance(x, str), x))
 
 
-def expected(case, q):
+def expected(recs, q):
     f = effective_filter(q)
-    return [i for i, r in enumerate(case['recs']) if r['cat'] == q['cat'] and spec_meta(f, to_py({'d': r['md']}))]
+    return [i for i, r in enumerate(recs) if r['cat'] == q['cat'] and spec_meta(f, to_py({'d': r['md']}))]
+
+
+def recs_after_resaves(case):
+    """the saved recordings after the optional second phase: `resaves` = [[index, new metadata], ...] saves those
+    recordings AGAIN under their ids (same cassette objects, after the first round of lookups); the latest save wins"""
+    recs = [dict(r) for r in case['recs']]
+    for pos, md in case.get('resaves') or []:
+        recs[pos] = dict(recs[pos], md=md)
+    return recs
+
+
+def all_queries(case):
+    """[(query, the recordings saved at that point)]: `queries` before, `queries2` after the re-saves"""
+    out = [(q, case['recs']) for q in case['queries']]
+    if case.get('resaves') or case.get('queries2'):
+        r2 = recs_after_resaves(case)
+        out += [(q, r2) for q in case.get('queries2') or []]
+    return out
 
 
 def lim_label(lim, n):
@@ -206,7 +224,9 @@ class C10(Prop):
             'heterogeneous values and the incomplete-recording key absent/False/True/None/0/\'x\'; ~6 lookups per store: '
             'category x filter (none, C14\'s filter generator, filters derived from stored values) x limit in '
             '{None,0,1,2,n,n+3} x ordered/random x direct iter_recording_ids or find_matching_recording_ids with '
-            'skip_incomplete true/false; systematic block: every prefix, empty stores, single-category stores queried '
+            'skip_incomplete true/false; a quarter of the stores get a second phase (1-3 recordings saved AGAIN under their id with '
+            'changed metadata through the same cassette objects, then the same lookups repeated + new ones: the latest save '
+            'wins); systematic block: every prefix, empty stores, single-category stores queried '
             'with prefix-related categories, limit 0, every incomplete-key mode with skip true; ~10% of the stores carry '
             'tuple/class metadata (K3); a case is non-trivial when some lookup has a non-empty expected set; distinct = '
             'distinct canonical case')
@@ -402,7 +422,45 @@ class C10(Prop):
                                 mkq('Op', {INC: [True, 'x']}, None), mkq('Op', {INC: None, 'a': [None, 1, 'a*']}, None, skip=True),
                                 mkq('Op', None, 1, skip=True), mkq('Op_x', None, 0, skip=True)]
                 cases.append(c)
+        # saved again under the same id with new metadata after the cassette has answered lookups: the latest save wins
+        for p in PREFIXES:
+            c = {'p': p, 'foreign': [k for k in FOREIGN if foreign_ok(p, k)][:3],
+                 'recs': [mkrec('Op', 'k2', {INC: True, 'a': 1}), mkrec('Op', 'b7', {INC: False}),
+                          mkrec('OpB', 'z1', {'a': 1}), mkrec('Op', 'c3', {'a': 2})]}
+            qs = [mkq('Op', None, None, skip=True), mkq('Op', {'a': 1}), mkq('Op', {'a': [1, 2]}, 1), mkq('OpB', {'a': 1}),
+                  mkq('Op', None, None, True, [1], 1, False)]
+            c['queries'] = qs
+            c['resaves'] = [[0, to_wire({INC: False, 'a': 2})['d']], [1, to_wire({INC: True, 'a': 1})['d']],
+                            [2, to_wire({})['d']]]
+            c['queries2'] = [dict(q) for q in qs] + [mkq('Op', {'a': 2}, skip=True), mkq('Op')]
+            cases.append(c)
         return cases
+
+    def add_resaves(self, rng, c):
+        """second phase for a store: 1-3 of its recordings are saved again under their ids with changed metadata (incomplete
+        flag flipped, a value changed, a key dropped or added), then the SAME lookups are repeated (what a stale listing
+        cache would answer wrongly) plus lookups aimed at the new state"""
+        n = len(c['recs'])
+        if not n:
+            return c
+        native = not any(non_native(w) for r in c['recs'] for _, w in r['md'])
+        res = []
+        for pos in rng.sample(range(n), min(n, rng.choice([1, 1, 2, 3]))):
+            md = dict(to_py({'d': c['recs'][pos]['md']}))
+            mode = rng.random()
+            if mode < 0.35:
+                md[INC] = (not md[INC]) if isinstance(md.get(INC), bool) else rng.choice([True, False])
+            elif mode < 0.75 and md:
+                md[rng.choice(sorted(md))] = self.rand_md_value(rng, native)
+            elif mode < 0.9 and md:
+                del md[rng.choice(sorted(md))]
+            else:
+                md[rng.choice(MD_KEYS)] = self.rand_md_value(rng, native)
+            res.append([pos, to_wire(md)['d']])
+        c['resaves'] = res
+        c2 = dict(c, recs=recs_after_resaves(c))
+        c['queries2'] = [dict(q) for q in c['queries']] + [self.rand_query(rng, c2) for _ in range(3)]
+        return c
 
     def generate(self, rng, tier):
         cases = self.systematic(rng)
@@ -410,6 +468,8 @@ class C10(Prop):
         for i in range(n):
             c = self.rand_store(rng, PREFIXES[i % len(PREFIXES)])
             c['queries'] = [self.rand_query(rng, c) for _ in range(6)]
+            if rng.random() < 0.25:
+                self.add_resaves(rng, c)
             cases.append(c)
         return cases
 
@@ -434,6 +494,7 @@ class C10(Prop):
             # ids -> index of the recording, with the ids the cassettes themselves handed out (the oracle does not
             # depend on the id format)
             idx = {name: {} for name in STORES}
+            ids_of = {name: [] for name in STORES}
             for pos, rec in enumerate(case['recs']):
                 for name in STORES:
                     c = cassettes[name]
@@ -443,53 +504,69 @@ class C10(Prop):
                     r.add_metadata(to_py({'d': rec['md']}))
                     c.save_recording(r)
                     idx[name][r.id] = pos
-            out = []
-            for q in case['queries']:
-                res = {'fetch': {}}
-                for name in STORES:
-                    c = cassettes[name]
-                    _STATE.update(rot=q['rot'], draws=list(q['ch']), step=0)
-                    try:
-                        if q['skip'] is None:
-                            it = c.iter_recording_ids(q['cat'], metadata=fdict(q['f']), limit=q['lim'],
-                                                      random_results=q['random'])
-                        else:
-                            props = RecordingLookupProperties(start_date=None, metadata=fdict(q['f']), limit=q['lim'],
-                                                              random_sample=q['random'], skip_incomplete=q['skip'])
-                            it = find_matching_recording_ids(TapeRecorder(c), q['cat'], props)
-                        ids = list(it)
-                    except Exception as ex:
-                        res[name] = type(ex).__name__
-                        res['fetch'][name] = None
-                        continue
-                    res[name] = [idx[name].get(i, i) if isinstance(i, str) else repr(i) for i in ids]
-                    ok = True
-                    for i in ids:
+                    ids_of[name].append(r.id)
+
+            def run_queries(queries, out):
+                for q in queries:
+                    res = {'fetch': {}}
+                    for name in STORES:
+                        c = cassettes[name]
+                        _STATE.update(rot=q['rot'], draws=list(q['ch']), step=0)
                         try:
-                            c.get_recording(i)
-                        except Exception:
-                            ok = False
-                    res['fetch'][name] = ok
-                # the S3 listing mechanism below the cassette: the facade iterator of the category's one key prefix
-                c = cassettes['s3']
-                _STATE.update(rot=q['rot'], draws=list(q['ch']), step=0)
-                # (keys are mapped to ids with the cassette's OWN key format, so the key layout - C15's business - does
-                # not matter here; if the private hook is renamed away the observable falls back to the cassette answer)
-                try:
-                    root = c.METADATA_KEY.format(key_prefix=c.key_prefix, id='')
-                except Exception:
-                    root = meta_root(case['p'])
-                hook = getattr(c, '_get_days_iterators', None)
-                if hook is None:
-                    res['s3facade'] = res['s3']
-                else:
+                            if q['skip'] is None:
+                                it = c.iter_recording_ids(q['cat'], metadata=fdict(q['f']), limit=q['lim'],
+                                                          random_results=q['random'])
+                            else:
+                                props = RecordingLookupProperties(start_date=None, metadata=fdict(q['f']), limit=q['lim'],
+                                                                  random_sample=q['random'], skip_incomplete=q['skip'])
+                                it = find_matching_recording_ids(TapeRecorder(c), q['cat'], props)
+                            ids = list(it)
+                        except Exception as ex:
+                            res[name] = type(ex).__name__
+                            res['fetch'][name] = None
+                            continue
+                        res[name] = [idx[name].get(i, i) if isinstance(i, str) else repr(i) for i in ids]
+                        ok = True
+                        for i in ids:
+                            try:
+                                c.get_recording(i)
+                            except Exception:
+                                ok = False
+                        res['fetch'][name] = ok
+                    # the S3 listing mechanism below the cassette: the facade iterator of the category's one key prefix
+                    c = cassettes['s3']
+                    _STATE.update(rot=q['rot'], draws=list(q['ch']), step=0)
+                    # (keys are mapped to ids with the cassette's OWN key format, so the key layout - C15's business - does
+                    # not matter here; if the private hook is renamed away the observable falls back to the cassette answer)
                     try:
-                        its = hook(q['cat'], None, None, effective_filter(q) or None, q['lim'], q['random'])
-                        keys = [k for it in its for k in it]
-                        res['s3facade'] = [idx['s3'].get(k[len(root):], k) if k.startswith(root) else k for k in keys]
-                    except Exception as ex:
-                        res['s3facade'] = type(ex).__name__
-                out.append(res)
+                        root = c.METADATA_KEY.format(key_prefix=c.key_prefix, id='')
+                    except Exception:
+                        root = meta_root(case['p'])
+                    hook = getattr(c, '_get_days_iterators', None)
+                    if hook is None:
+                        res['s3facade'] = res['s3']
+                    else:
+                        try:
+                            its = hook(q['cat'], None, None, effective_filter(q) or None, q['lim'], q['random'])
+                            keys = [k for it in its for k in it]
+                            res['s3facade'] = [idx['s3'].get(k[len(root):], k) if k.startswith(root) else k for k in keys]
+                        except Exception as ex:
+                            res['s3facade'] = type(ex).__name__
+                    out.append(res)
+
+            out = []
+            run_queries(case['queries'], out)
+            if case.get('resaves') or case.get('queries2'):
+                # second phase: the same recordings saved AGAIN under their ids with new metadata, through the same
+                # cassette objects that have just answered lookups; then more lookups
+                from playback.recordings.memory.memory_recording import MemoryRecording
+                for pos, md in case.get('resaves') or []:
+                    for name in STORES:
+                        r = MemoryRecording(ids_of[name][pos])
+                        r.set_data('k', 1)
+                        r.add_metadata(to_py({'d': md}))
+                        cassettes[name].save_recording(r)
+                run_queries(case.get('queries2') or [], out)
             return out
         finally:
             shutil.rmtree(directory, ignore_errors=True)
@@ -500,10 +577,10 @@ class C10(Prop):
     # ------------------------------------------------------------------------------------------------------
     def model_requests(self, case):
         reqs = []
-        for q in case['queries']:
+        for q, recs in all_queries(case):
             for name in STORES:
                 reqs.append({'m': 'c10.list', 'store': name, 'p': case['p'], 'foreign': case['foreign'],
-                             'recs': [{'id': store_id(name, r['cat'], r['uid']), 'md': r['md']} for r in case['recs']],
+                             'recs': [{'id': store_id(name, r['cat'], r['uid']), 'md': r['md']} for r in recs],
                              'cat': q['cat'], 'f': q['f'], 'lim': q['lim'], 'random': q['random'], 'skip': q['skip'],
                              'ch': q['ch'], 'rot': q['rot']})
         return reqs
@@ -517,7 +594,7 @@ class C10(Prop):
 
     def model_transcript(self, case, answers):
         out = []
-        for qi, q in enumerate(case['queries']):
+        for qi, (q, _) in enumerate(all_queries(case)):
             res = {'fetch': {}}
             for si, name in enumerate(STORES):
                 a = answers[qi * len(STORES) + si]
@@ -536,7 +613,7 @@ class C10(Prop):
 
     def impl_view(self, case, impl):
         out = []
-        for q, res in zip(case['queries'], impl):
+        for (q, _), res in zip(all_queries(case), impl):
             res = dict(res)
             res['file'] = self.reduce_file(q, res['file'])
             out.append(res)
@@ -547,8 +624,8 @@ class C10(Prop):
     # ------------------------------------------------------------------------------------------------------
     def oracle(self, case, impl):
         fails = []
-        for qi, (q, res) in enumerate(zip(case['queries'], impl)):
-            want = expected(case, q)
+        for qi, ((q, recs), res) in enumerate(zip(all_queries(case), impl)):
+            want = expected(recs, q)
             lim = q['lim']
             for name, label, got in [(s, s, res[s]) for s in STORES] + [('s3facade', 's3', res['s3facade'])]:
                 pre = 'q%d/%s: ' % (qi, label) + ('facade key listing ' if name == 's3facade' else '')
@@ -584,17 +661,20 @@ class C10(Prop):
             if not m or m.group(2) != 's3':
                 return None
             queries.add(int(m.group(1)))
+        aq = all_queries(case)
         for qi in queries:
-            q = case['queries'][qi]
+            if qi >= len(aq):
+                return None
+            q, recs = aq[qi]
             keys = set(effective_filter(q))
-            hit = any(r['cat'] == q['cat'] and any(k in keys and non_native(w) for k, w in r['md']) for r in case['recs'])
+            hit = any(r['cat'] == q['cat'] and any(k in keys and non_native(w) for k, w in r['md']) for r in recs)
             if not hit:
                 return None
         return K3
 
     # ------------------------------------------------------------------------------------------------------
     def nontrivial(self, case, impl):
-        return any(expected(case, q) for q in case['queries'])
+        return any(expected(recs, q) for q, recs in all_queries(case))
 
     def features(self, case, impl):
         n = len(case['recs'])
@@ -603,7 +683,9 @@ class C10(Prop):
             out.append('non-json-native')
         if case['foreign']:
             out.append('foreign-objects')
-        for q in case['queries']:
+        if case.get('resaves'):
+            out.append('resaved-same-id-new-metadata')
+        for q, recs in all_queries(case):
             out.append('lim:' + lim_label(q['lim'], n))
             if q['random']:
                 out.append('random')
@@ -621,13 +703,28 @@ class C10(Prop):
                     out.append('filter:atom')
                 if k == INC:
                     out.append('filter-names-incomplete-key')
-            if expected(case, q):
+            if expected(recs, q):
                 out.append('query:matches')
         return out
 
     def shrink(self, case):
         case = {k: v for k, v in case.items() if not k.startswith('_')}
         qs, recs = case['queries'], case['recs']
+        if case.get('resaves') or case.get('queries2'):
+            rs, q2 = case.get('resaves') or [], case.get('queries2') or []
+            yield {k: v for k, v in case.items() if k not in ('resaves', 'queries2')}
+            for i in range(len(q2)):
+                yield dict(case, queries2=[q2[i]])
+            for i in range(len(rs)):
+                yield dict(case, resaves=rs[:i] + rs[i + 1:])
+            for i in range(len(qs)):
+                yield dict(case, queries=qs[:i] + qs[i + 1:])
+            used = {pos for pos, _ in rs}
+            for i in range(len(recs)):
+                if i not in used:
+                    yield dict(case, recs=recs[:i] + recs[i + 1:],
+                               resaves=[[pos - (1 if pos > i else 0), md] for pos, md in rs])
+            return
         if len(qs) > 1:
             for i in range(len(qs)):
                 yield dict(case, queries=[qs[i]])
